@@ -134,6 +134,7 @@ def run(
     timeout: int = 1800,
     coverage: bool = False,
     deque: bool = False,
+    memqueue: bool = False,
     xss: str = "64m",
     xmx: str = "8g",
     keep: bool = False,
@@ -148,6 +149,10 @@ def run(
     jopts = [f"-DTLA-Library={SPEC_DIR}", f"-Xss{xss}", f"-Xmx{xmx}", "-XX:+UseParallelGC"]
     if deque:
         jopts.append("-Dtlc2.tool.queue.IStateQueue=StateDeque")
+    elif memqueue:
+        # with a VIEW the variables themselves are never fingerprinted, so lazily evaluated function values are
+        # never converted and TLC 1.8.0's disk queue crashes writing them (FcnLambdaValue.write NPE): keep the queue in memory
+        jopts.append("-Dtlc2.tool.queue.IStateQueue=MemStateQueue")
     cmd = ["java", *jopts, "-cp", JAR, "tlc2.TLC", "-workers", str(workers), "-metadir", str(wd / "meta"),
            "-noGenerateSpecTE", "-config", f"{main_module}.cfg"]
     if simulate is not None:
